@@ -101,3 +101,38 @@ func prefixes(out string) {
 	sum.Note("events", w.N)
 	sum.Print()
 }
+
+// insertions writes, for every record text of the zoo, the texts obtained by inserting a stray parenthesis,
+// an unterminated quote or a lone backslash at every token boundary of the RDATA, each followed by a second,
+// valid record.  The harness does not say which of them are ill-formed (an insertion may fall inside a quoted
+// string): the texts go to Gen_Present (Mode "file"), whose classification comes back with them as "text"
+// vectors for `zone replay`: lexically ill-formed => an error must be reported (the silent loss of the
+// second record is the failure to look for).
+func insertions(out string) {
+	w := newWriter(out)
+	defer w.Close()
+	var sum hx.Summary
+	second := "after.example.org. 3600 IN A 192.0.2.9\n"
+	for _, t := range zoo.Texts {
+		full := strings.Replace(t, "OWNER", "example.org.", 1)
+		f := strings.Fields(full)
+		if len(f) < 5 {
+			continue
+		}
+		start := strings.Index(full, " "+f[3]+" ") + len(f[3]) + 1 // the blank after the type
+		for i := start; i <= len(full); i++ {
+			if i < len(full) && full[i] != ' ' {
+				continue
+			}
+			for _, ins := range []string{" )", " (", ")", "(", " ( ", " ) (", " \"", " ( )", " ;)"} {
+				w.Emit(map[string]interface{}{"text": hx.FromString(full[:i] + ins + full[i:] + "\n" + second)})
+				sum.Evaluations++
+			}
+			w.Emit(map[string]interface{}{"text": hx.FromString(full[:i] + " \\")}) // a lone backslash at the end of input
+			w.Emit(map[string]interface{}{"text": hx.FromString(full[:i] + " (")})  // never closed, end of input
+			sum.Evaluations += 2
+		}
+	}
+	sum.Note("texts", w.N)
+	sum.Print()
+}
